@@ -210,6 +210,17 @@ def op_tok(op):
     raise ValueError(op)
 
 
+def op_str(o):
+    """human-readable form of a call (evidence samples, violation texts, replay)"""
+    if o["op"] == "F":
+        return f"fit(idx={o['idx']}, y={o['y']}, sample_weight={o['sw']}, set_base_clf={o['sb']})"
+    if o["op"] == "P":
+        return f"partial_fit(idx={o['idx']}, y={o['y']}, sample_weight={o['sw']}, use_base_clf={o['ub']}, set_base_clf={o['sb']})"
+    if o["op"] == "C":
+        return f"precompute(idx_fit={o['a']}, idx_pred={o['b']}, fit_params={o['fp']!r}, pred_params={o['pp']!r})"
+    return f"{o['kind']}(idx={o['q']})"
+
+
 # ---- parsing the model's output ------------------------------------------------------------------
 
 class Cur:
@@ -650,7 +661,7 @@ def run_case(ctx, case, pending, oracle=True):
                 ):
                     ctx.violate(
                         f"C19/IndexClassifierWrapper.{'fit' if op['op'] == 'F' else 'partial_fit'}/training-set-differs-from-implied-multiset",
-                        f"after call {k} ({op_tok(op)}) the object holds cur={after['cur']} base={after['base']} but the call "
+                        f"after call {k} ({op_str(op)}) the object holds cur={after['cur']} base={after['base']} but the call "
                         f"sequence implies cur={sp.cur} base={sp.base}",
                         dict(case=dict(case, ops=case["ops"][: k + 1], speed=r.speed), at=k))
                     stop = True
@@ -697,7 +708,12 @@ def run_case(ctx, case, pending, oracle=True):
                 else:
                     ctx.count(f"oracle_{kd}_{m}")
             if bad:
-                ctx.violate(f"C19/IndexClassifierWrapper.{kd}/differs-from-retrained", f"after call {k} ({op_tok(op)}): {bad}",
+                key = f"C19/IndexClassifierWrapper.{kd}/differs-from-retrained"
+                if sts[0] != "ok" and op["op"] in "FP":
+                    # the call just made raised, yet the predictions moved: same class as part 1 (seen through the classifier)
+                    key = f"C19/IndexClassifierWrapper.{'fit' if op['op'] == 'F' else 'partial_fit'}/failed-call-changes-state/{sts[0][4:]}"
+                    bad = f"the call raised ({sts[0][4:]}) but changed the predictions: " + bad
+                ctx.violate(key, f"after call {k} ({op_str(op)}): {bad}",
                             dict(case=dict(case, ops=case["ops"][: k + 1], speed=r0.speed), at=k, query=q))
                 stop = True
         if len(runners) == 2:
@@ -729,7 +745,7 @@ def run_case(ctx, case, pending, oracle=True):
            repr(case["sw0"]), repr(case["ops"]))
     ctx.case(key, is_nontrivial(statuses, case["ops"]),
              sample=dict(kind=kind, flags=dict(ignore_partial_fit=case["ignore_pf"], enforce_unique=case["unique"], use_speed_up=speeds),
-                         n=n, calls=[op_tok(o) for o in case["ops"][:6]], statuses=statuses[:6]))
+                         n=n, calls=[op_str(o) for o in case["ops"][:6]], statuses=statuses[:6]))
     ctx.count(f"kind_{kind}_{'native' if specs[0].native else 'emulated'}_{'unique' if case['unique'] else 'multi'}")
     ctx.count(f"seq_len_{min(len(case['ops']), 9)}")
 
@@ -815,7 +831,7 @@ def _speed_oracle(ctx, case, k, op, q, Xq, runners, specs, outs, dy_exact):
             pre = case["prefit"] is not None and specs[1].cur is None
             key = (f"C19/IndexClassifierWrapper.{kd}/speedup-prefitted-returns-proba" if pre and kd != "predict_proba"
                    else f"C19/IndexClassifierWrapper.{kd}/speedup-changes-prediction")
-            ctx.violate(key, f"after call {k} ({op_tok(op)}): {bad}",
+            ctx.violate(key, f"after call {k} ({op_str(op)}): {bad}",
                         dict(case=dict(case, ops=case["ops"][: k + 1]), at=k, query=q, both_speeds=True))
 
 
@@ -1026,7 +1042,8 @@ def exhaustive(ctx, pending, flush):
             A = small_alphabet(weights)
             for unique in (False, True):
                 for ignore_pf in ((False, True) if kind == "spypf" else (False,)):
-                    for L in range(1, maxlen + 1):
+                    # spypf with ignore_partial_fit=True repeats the emulated path of `spy`: one length less
+                    for L in range(1, (maxlen if not ignore_pf else maxlen - 1) + 1):
                         for seq in itertools.product(range(len(A)), repeat=L):
                             ops = [A[i] for i in seq]
                             if kind == "pwc_dy":
@@ -1038,7 +1055,8 @@ def exhaustive(ctx, pending, flush):
                             if len(pending) >= 4000:
                                 flush()
     ctx.notes["exhaustive_subrun"] = (
-        f"all call sequences up to length 4 (ParzenWindowClassifier with both speed-up settings: up to length 3) over 4 samples "
+        f"all call sequences up to length 4 (ParzenWindowClassifier with both speed-up settings, and the spy with native "
+        f"partial_fit ignored: up to length 3) over 4 samples "
         f"from an alphabet of {len(small_alphabet(False))} calls x weights None/given x enforce_unique_samples x "
         f"ignore_partial_fit: {total} sequences"
     )
@@ -1099,7 +1117,7 @@ def correspond(ctx):
         del pending[:]
 
     probes(ctx, pending)
-    n_rand = 500 if not ctx.thorough else 6000
+    n_rand = 500 if not ctx.thorough else 4000
     for _ in range(n_rand):
         run_case(ctx, gen_case(rng), pending)
         if len(pending) >= 4000:
@@ -1152,12 +1170,7 @@ def replay(payload):
     print("classifier:", case["kind"], "| ignore_partial_fit:", case["ignore_pf"], "| enforce_unique_samples:", case["unique"],
           "| use_speed_up:", "both" if case["kind"].startswith("pwc") else case.get("speed"), "| pre-fitted on:", case.get("prefit"))
     for o in case["ops"]:
-        if o["op"] == "F":
-            print(f"  fit(idx={o['idx']}, y={o['y']}, sample_weight={o['sw']}, set_base_clf={o['sb']})")
-        elif o["op"] == "P":
-            print(f"  partial_fit(idx={o['idx']}, y={o['y']}, sample_weight={o['sw']}, use_base_clf={o['ub']}, set_base_clf={o['sb']})")
-        else:
-            print(f"  precompute(idx_fit={o['a']}, idx_pred={o['b']}, fit_params={o['fp']!r}, pred_params={o['pp']!r})")
+        print("  " + op_str(o))
     pending = []
     run_case(ctx, case, pending)
     for v in ctx.violations:
